@@ -314,7 +314,7 @@ example :
     let s := run (init { connectFails := true })
       [.main, .main, .saver true, .saver true, .saver true, .saver true, .tick 5, .main, .main, .saver true,
        .main, .main, .main, .main]
-    s.main = .finished ∧ s.saver = .done ∧ s.entered = false ∧ s.outcome = some .connectErr ∧ s.finalSaveDone = true := by
+    s.main = .finished ∧ s.saver.alive = false ∧ s.entered = false ∧ s.outcome = some .connectErr ∧ s.finalSaveDone = true := by
   decide
 
 /-- 2000 s in the body: saves at 0, 900 and 1800. -/
